@@ -92,7 +92,7 @@ fn seq_strategy() -> BoxedStrategy<Case> {
     vec((any::<u16>(), any::<u8>(), 0u8..6u8, 0u8..10u8, any::<bool>(), ((any::<u16>(), any::<u8>()), (any::<u16>(), any::<u8>()), (any::<u16>(), any::<u8>()))), 0..=10),
   )
     .prop_map(|(pool, v)| {
-      let pool: Vec<Orig> = pool
+      let mut pool: Vec<Orig> = pool
         .into_iter()
         .map(|(src, ol, oc, nm)| Orig {
           src: big(src.0, src.1 % 22),
@@ -101,6 +101,10 @@ fn seq_strategy() -> BoxedStrategy<Case> {
           name: if nm.0 == 0 { None } else { Some(big(nm.1, nm.2 % 22)) },
         })
         .collect();
+      // now and then the second location is the first one a line further (what line-by-line code produces)
+      if pool.len() >= 2 && pool[1].col % 3 == 0 {
+        pool[1] = Orig { line: pool[0].line.saturating_add(1).min(1 << 30), name: pool[1].name.filter(|_| pool[1].src % 2 == 0), ..pool[0] };
+      }
       let mut out: Vec<Seg> = vec![];
       let (mut l, mut c) = (1u32, 0u32);
       for (k, (cs, cw, step, pick, flip_name, fresh)) in v.into_iter().enumerate() {
@@ -144,18 +148,25 @@ fn seq_strategy() -> BoxedStrategy<Case> {
     .boxed()
 }
 
-/// every sequence of up to 5 segments over {unmapped, A, A+name0, A+name1, B} x {same line, new line}
+/// every sequence of up to 5 segments over {unmapped, A, A+name0, A+name1, B, A'} x {same line, new line}
+/// (A' = A one original line further, same column)
 fn small_sequences() -> Box<dyn Iterator<Item = Case> + Send> {
   let a = Orig { src: 0, line: 1, col: 0, name: None };
-  let kinds: [Option<Orig>; 5] =
-    [None, Some(a), Some(Orig { name: Some(0), ..a }), Some(Orig { name: Some(1), ..a }), Some(Orig { src: 1, line: 2, col: 4, name: None })];
+  let kinds: [Option<Orig>; 6] = [
+    None,
+    Some(a),
+    Some(Orig { name: Some(0), ..a }),
+    Some(Orig { name: Some(1), ..a }),
+    Some(Orig { src: 1, line: 2, col: 4, name: None }),
+    Some(Orig { line: 2, ..a }),
+  ];
   let mut all: Vec<Vec<(bool, usize)>> = vec![vec![]];
   let mut level: Vec<Vec<(bool, usize)>> = vec![vec![]];
   for _ in 0..5 {
     let mut next = vec![];
     for s in &level {
       for nl in [false, true] {
-        for k in 0..5 {
+        for k in 0..6 {
           let mut t = s.clone();
           t.push((nl, k));
           next.push(t);
@@ -308,7 +319,7 @@ impl Prop for C12 {
      flipped on and off, or unmapped, or fresh) with columns, source/name \
      indices, original lines/columns and their deltas spread over every VLQ digit count up to 2^30, both signs, 1-/4-/5-field, \
      empty lines and gaps; leg 2 (exhaustive): for each of the five fields every delta d with |d| < 2^18 (quick) / 2^20 \
-     (thorough) realised by a two-segment sequence; leg 2b (exhaustive): every sequence of <=5 segments over {unmapped, A, A+name0, A+name1, B} x {same line, new line}; leg 4 (exhaustive): every string of <=5 segments from {AAAA, AACA, CAAA, A, C, AAAAA, EAEA, AAgBA} separated by ',' / ';', read by decode_mappings and by the independent decoder; leg 3: well-formed strings written by an independent encoder with \
+     (thorough) realised by a two-segment sequence; leg 2b (exhaustive): every sequence of <=5 segments over {unmapped, A, A+name0, A+name1, B, A one original line further} x {same line, new line}; leg 4 (exhaustive): every string of <=5 segments from {AAAA, AACA, CAAA, A, C, AAAAA, EAEA, AAgBA} separated by ',' / ';', read by decode_mappings and by the independent decoder; leg 3: well-formed strings written by an independent encoder with \
      redundant continuation digits, empty segments, runs of ';', columns going backwards or standing still, original locations one step away from the previous one. Oracle: independent v3 \
      decoder/encoder + drop rule + line-only rule. Non-trivial: a delta of magnitude >= 16 (crosses a VLQ digit boundary) \
      or a negative delta, or (leg 3) a redundant digit / empty segment; distinct by hash of the case JSON".into()
@@ -326,7 +337,7 @@ impl Prop for C12 {
           }))
         })),
       },
-      Leg { name: "every sequence of <=5 segments over a 5-letter alphabet (exhaustive)", source: Cases::Enumerated(Box::new(|_| small_sequences())) },
+      Leg { name: "every sequence of <=5 segments over a 6-letter alphabet (exhaustive)", source: Cases::Enumerated(Box::new(|_| small_sequences())) },
       Leg { name: "unusual spellings", source: Cases::Generated(Box::new(spelled_strategy), 400_000, 4_000_000) },
       Leg { name: "every string of <=5 common segments (exhaustive)", source: Cases::Enumerated(Box::new(|_| common_strings())) },
     ]
